@@ -105,7 +105,9 @@ func decorate(t *tape.Tape, k *cose.Key) string {
 		d += "+kid"
 	}
 	if t.Bool(1, 3, "c14.ops") {
-		k.Ops = []cose.KeyOp{cose.KeyOpSign, cose.KeyOpVerify}
+		// both operations always stay permitted (restrictions are C15's
+		// business); extra ones vary
+		k.Ops = [][]cose.KeyOp{{cose.KeyOpSign, cose.KeyOpVerify}, {cose.KeyOpVerify, cose.KeyOpSign, cose.KeyOpDeriveBits}, {cose.KeyOpSign, cose.KeyOpVerify, cose.KeyOpEncrypt}}[t.Choose(3, "c14.ops.v")]
 		d += "+ops"
 	}
 	if t.Bool(1, 4, "c14.baseiv") {
@@ -123,7 +125,11 @@ func decorate(t *tape.Tape, k *cose.Key) string {
 	return d
 }
 
-func (r *Run) c14Store(k *cose.Key, what string) ([]byte, *cose.Key, bool) {
+// c14Store serialises a key into the directory and loads it back.  slot, when
+// non-nil, is a long-lived variable of the directory that earlier loads of
+// this run already decoded into (a server re-using its structs): the result
+// must not depend on what it held before.
+func (r *Run) c14Store(k *cose.Key, what string, slot *cose.Key) ([]byte, *cose.Key, bool) {
 	var b []byte
 	var err error
 	r.Lib(func() { b, err = k.MarshalCBOR() })
@@ -132,13 +138,30 @@ func (r *Run) c14Store(k *cose.Key, what string) ([]byte, *cose.Key, bool) {
 		r.Fail("key-marshal-fails/"+what, "MarshalCBOR of a key converted from a valid Go key failed: %v", err)
 		return nil, nil, false
 	}
-	var back cose.Key
+	back := slot
+	if back == nil {
+		back = new(cose.Key)
+	} else {
+		r.Probe("directory-slot-reused")
+	}
 	r.Lib(func() { err = back.UnmarshalCBOR(b) })
 	if err != nil {
 		r.Fail("key-roundtrip-decode-fails/"+what, "own COSE_Key encoding refused: %v\nbytes: %x", err, b)
 		return nil, nil, false
 	}
-	return b, &back, true
+	if slot != nil {
+		// hand out a copy: the slot is decoded into again later
+		var fresh cose.Key
+		r.Lib(func() { err = fresh.UnmarshalCBOR(b) })
+		if err == nil && Snapshot(&fresh) != Snapshot(back) {
+			r.Check()
+			r.Fail("key-decode-depends-on-destination-history/"+what, "decoding a stored key into a previously used Key variable gives another value than decoding it into a fresh one\n%s\nbytes: %x", diffSnapshot(Snapshot(&fresh), Snapshot(back)), b)
+			return nil, nil, false
+		}
+		c := *back
+		back = &c
+	}
+	return b, back, true
 }
 
 func c14CheckCoords(r *Run, b []byte, size int, what string) {
@@ -187,11 +210,15 @@ func c14GoEC(r *Run, t *tape.Tape, priv *ecdsa.PrivateKey, ent *Entropy) {
 	}
 	dec := decorate(t, ck) + decorate(t, cpub)
 	r.Outcome("ec/" + name + "/lz=" + lz + dec)
-	b, back, ok := r.c14Store(ck, name)
+	var slot *cose.Key
+	if t.Bool(1, 2, "c14.slot") {
+		slot = new(cose.Key)
+	}
+	b, back, ok := r.c14Store(ck, name, slot)
 	if !ok {
 		return
 	}
-	bp, backPub, ok := r.c14Store(cpub, name)
+	bp, backPub, ok := r.c14Store(cpub, name, slot)
 	if !ok {
 		return
 	}
@@ -258,7 +285,7 @@ func c14GoECPublic(r *Run, t *tape.Tape, pub *ecdsa.PublicKey, what string) {
 		r.Fail("newkey-from-public-fails/"+name+"/"+what, "NewKeyFromPublic refused a valid public key: %v", err)
 		return
 	}
-	b, back, ok := r.c14Store(ck, name+"/"+what)
+	b, back, ok := r.c14Store(ck, name+"/"+what, nil)
 	if !ok {
 		return
 	}
@@ -297,11 +324,15 @@ func c14GoEd(r *Run, t *tape.Tape, priv ed25519.PrivateKey, ent *Entropy) {
 	}
 	dec := decorate(t, ck) + decorate(t, cpub)
 	r.Outcome("ed25519" + dec)
-	_, back, ok := r.c14Store(ck, "Ed25519")
+	var slot *cose.Key
+	if t.Bool(1, 2, "c14.slot") {
+		slot = new(cose.Key)
+	}
+	_, back, ok := r.c14Store(ck, "Ed25519", slot)
 	if !ok {
 		return
 	}
-	_, backPub, ok := r.c14Store(cpub, "Ed25519")
+	_, backPub, ok := r.c14Store(cpub, "Ed25519", slot)
 	if !ok {
 		return
 	}
@@ -443,6 +474,18 @@ func scenarioC15(r *Run) {
 	r.Outcome(fmt.Sprintf("kty=%d/%s", ks.Kty, opsClass(ks)))
 	var k cose.Key
 	var err error
+	if t.Bool(1, 3, "c15.slot") {
+		// the directory re-uses its Key variable: it held another (valid,
+		// private, unrestricted) key before
+		prev := genKeySpec(t)
+		prev.Ops, prev.HasOps = nil, false
+		pb := prev.Bytes()
+		r.Lib(func() { err = k.UnmarshalCBOR(pb) })
+		if err == nil {
+			r.Fired("dest.reuse.ok")
+			r.Op("KEY_LOAD", "same variable, earlier: %s", prev.Desc)
+		}
+	}
 	r.Lib(func() { err = k.UnmarshalCBOR(stored) })
 	if err != nil {
 		r.Outcome("refused")
